@@ -7,6 +7,7 @@ import (
 	"math"
 	"reflect"
 	"sort"
+	"sync"
 
 	"github.com/bmeg/grip/engine/logic"
 	"github.com/bmeg/grip/gdbi"
@@ -918,6 +919,18 @@ func (b both) Process(ctx context.Context, man gdbi.Manager, in gdbi.InPipe, out
 		for i, p := range procs {
 			p.Process(ctx, man, chanIn[i], chanOut[i])
 		}
+		// drain the sub-pipelines while they are being fed: waiting for the
+		// input to end first deadlocks once a sub-pipeline's buffers are full
+		wg := &sync.WaitGroup{}
+		for i := range procs {
+			wg.Add(1)
+			go func(ch chan gdbi.Traveler) {
+				defer wg.Done()
+				for c := range ch {
+					out <- c
+				}
+			}(chanOut[i])
+		}
 		for t := range in {
 			if t.IsSignal() {
 				out <- t
@@ -930,11 +943,7 @@ func (b both) Process(ctx context.Context, man gdbi.Manager, in gdbi.InPipe, out
 		for _, ch := range chanIn {
 			close(ch)
 		}
-		for i := range procs {
-			for c := range chanOut[i] {
-				out <- c
-			}
-		}
+		wg.Wait()
 	}()
 	return ctx
 }
